@@ -11,3 +11,4 @@ Check C01_order_kept : forall n es o, is_push o = false -> map fst (fst (s_step 
 Check C01_reopen : forall n es, fits n es -> check_data (render n es) = Ok tt.
 Check C01_resize_any_valid_slab : forall es (tail : list byte) t r a v b l, Forall wf_entry es -> term tail -> wf_tag t -> split_entry es t r = Some (a, v, b) -> realloc (enc es ++ tail) t l r = if (len v <? l) && (len (enc es ++ tail) <? len (enc es) + (l - len v)) then (enc es ++ tail, Err E_INVALID_ACCOUNT_DATA) else if U32_LIMIT <=? l then (enc es ++ tail, Err E_TOO_SMALL) else (enc (a ++ (t, resize l v) :: b) ++ tail_after tail (len v) l, Ok (voff a)).
 Check C01_alloc_any_valid_slab : forall es (tail : list byte) t l a, Forall wf_entry es -> term tail -> wf_tag t -> (a || negb (has t es)) = true -> HDR + l <= len tail -> l < U32_LIMIT -> alloc (enc es ++ tail) t l a = (enc (es ++ [(t, firstn (N.to_nat l) (skipn 12 tail))]) ++ skipn (12 + N.to_nat l) tail, Ok (voff es, count t es)).
+Check C01_shrink_keeps_valid : forall es (tail : list byte) t r a v b l, Forall wf_entry es -> term tail -> wf_tag t -> split_entry es t r = Some (a, v, b) -> l <= len v -> exists tail', term tail' /\ Forall wf_entry (a ++ (t, resize l v) :: b) /\ realloc (enc es ++ tail) t l r = (enc (a ++ (t, resize l v) :: b) ++ tail', Ok (voff a)).
